@@ -59,6 +59,10 @@ type vfStream struct {
 	q    []vfItem
 	wake chan struct{}
 	dead bool
+	// holding: responses are kept back (in order) until vfRelease: lets a history choose
+	// the moment at which go-zero gets to see the events replayed by a fresh watch
+	holding bool
+	held    []vfItem
 }
 
 // vfEtcd: revisioned store + retained event log + compaction; one watched range.
@@ -83,6 +87,11 @@ type vfEtcd struct {
 	refused int
 	stuck   bool
 	calls   []string
+	// build-inject family: operations that reach the store right after the snapshot of
+	// the next Get was taken (so they arrive through the replay of the following Watch),
+	// and whether that Watch's stream starts in the holding state
+	afterSnap []vfOp
+	holdNext  bool
 }
 
 const vfRefusalsWithoutLoad = 5
@@ -148,6 +157,11 @@ func (f *vfEtcd) Get(_ context.Context, key string, opts ...clientv3.OpOption) (
 	if f.compactRev > 0 {
 		f.vfCall("Get(range) -> %d key(s) at revision %d", len(keys), f.rev)
 	}
+	if f.afterSnap != nil {
+		ops := f.afterSnap
+		f.afterSnap = nil
+		f.vfApplyLocked(ops...)
+	}
 	f.vfPoke()
 	return resp, nil
 }
@@ -187,10 +201,29 @@ func (f *vfEtcd) Watch(ctx context.Context, key string, opts ...clientv3.OpOptio
 			}
 		}
 	}
+	if f.holdNext && !st.dead {
+		f.holdNext = false
+		st.holding = true
+		st.held, st.q = st.q, nil
+	}
 	f.mu.Unlock()
 	go f.vfPump(ctx, st)
 	f.vfPoke()
 	return st.ch
+}
+
+// vfRelease lets the held responses of the current stream through, in order.
+func (f *vfEtcd) vfRelease() {
+	f.mu.Lock()
+	defer f.mu.Unlock()
+	if st := f.cur; st != nil && st.holding {
+		st.holding = false
+		held := st.held
+		st.held = nil
+		for _, it := range held {
+			st.vfPush(it)
+		}
+	}
 }
 
 func (f *vfEtcd) vfPump(ctx context.Context, st *vfStream) {
@@ -248,6 +281,10 @@ func (f *vfEtcd) vfProbe() chan struct{} {
 }
 
 func (st *vfStream) vfPush(it vfItem) {
+	if st.holding {
+		st.held = append(st.held, it)
+		return
+	}
 	st.q = append(st.q, it)
 	select {
 	case st.wake <- struct{}{}:
@@ -259,6 +296,10 @@ func (st *vfStream) vfPush(it vfItem) {
 func (f *vfEtcd) vfApply(ops ...vfOp) {
 	f.mu.Lock()
 	defer f.mu.Unlock()
+	f.vfApplyLocked(ops...)
+}
+
+func (f *vfEtcd) vfApplyLocked(ops ...vfOp) {
 	var evs []*clientv3.Event
 	for _, o := range ops {
 		if o.del {
@@ -380,18 +421,21 @@ type vfRec struct {
 	calls int
 	last  []string
 	sig   chan struct{}
+	hook  func(call int) // set before Build, never changed afterwards
 }
 
-func (r *vfRec) vfRecord(vals []string) {
+func (r *vfRec) vfRecord(vals []string) int {
 	v := append([]string(nil), vals...)
 	r.mu.Lock()
 	r.calls++
+	n := r.calls
 	r.last = v
 	r.mu.Unlock()
 	select {
 	case r.sig <- struct{}{}:
 	default:
 	}
+	return n
 }
 
 func (r *vfRec) UpdateState(s resolver.State) error {
@@ -399,7 +443,12 @@ func (r *vfRec) UpdateState(s resolver.State) error {
 	for _, a := range s.Addresses {
 		addrs = append(addrs, a.Addr)
 	}
-	r.vfRecord(addrs)
+	// the list counts as published at this point; whatever the hook does happens while
+	// the caller (Build, or go-zero's watch goroutine) is still inside UpdateState. No
+	// lock is held: go-zero may call UpdateState again from another goroutine meanwhile.
+	if n := r.vfRecord(addrs); r.hook != nil {
+		r.hook(n)
+	}
 	return nil
 }
 func (r *vfRec) ReportError(error)              {}
@@ -743,6 +792,332 @@ func vfResolverHistory(c *kit.Case) {
 	}
 }
 
+// ---- registry events that arrive WHILE the resolver is being built / is publishing
+//
+// The recording ClientConn is the one place inside Build (and inside go-zero's watch
+// goroutine, for later publications) where the harness runs on go-zero's own stack,
+// so it is used to put registry events at exact points:
+//
+//	event-during-build           ops applied to the store from inside the FIRST UpdateState
+//	                             (between the initial publication and whatever Build does next)
+//	replayed-event-during-build  ops reach the store right after the snapshot of Build's Get was
+//	                             taken (between load and watch); the stream replaying them is held
+//	                             and released from inside the first UpdateState
+//	replayed-event-after-build   the same, released once Build has returned
+//	event-during-later-publish   ops applied from inside a later UpdateState (the one caused by a
+//	                             preceding registration), i.e. while a publication is in flight
+//
+// Barrier: a progress notification queued behind the events on the unbuffered channel;
+// once go-zero has received it the events have been handled and every listener has
+// been called (the stream is handled sequentially, listeners run inside the handling).
+// For the two during-build placements the barrier is awaited INSIDE UpdateState, so
+// Build cannot proceed before go-zero has consumed the events. No registry event
+// follows. The LAST list passed to UpdateState must then be the registered values.
+// "Never published" is thereby decided from the order of responses, not from a
+// timer; a mismatch is re-evaluated on a state that stopped changing.
+
+var vfPlacements = []string{"event-during-build", "replayed-event-during-build", "replayed-event-after-build", "event-during-later-publish"}
+
+var vfStaleReports int
+
+func vfAwait(done chan struct{}) bool {
+	if done == nil {
+		return false
+	}
+	t := time.NewTimer(vfWatchdog)
+	defer t.Stop()
+	select {
+	case <-done:
+		return true
+	case <-t.C:
+		return false
+	}
+}
+
+func vfBuildInjectCase(c *kit.Case) {
+	r := c.R
+	vfSeq++
+	ep := fmt.Sprintf("c13wbinj-%d-%d.verif:2379", kit.GetEnv().Seed, vfSeq)
+	f := &vfEtcd{rev: 100, kv: map[string]string{}, note: make(chan struct{}, 1), conn: vfConn}
+	vfMu.Lock()
+	vfStores[ep] = f
+	vfMu.Unlock()
+	n := r.Range(1, 6)
+	if r.Chance(0.2) {
+		n = r.Range(12, 26) // plus at most 4 new values: the view stays <= 32
+	}
+	val := func(i int) string { return fmt.Sprintf("10.4.0.%d:80", i) }
+	var steps []string
+	reg := map[string]string{}
+	for i := 0; i < n; i++ {
+		if r.Chance(0.6) {
+			k, v := fmt.Sprintf("svc/%d", i), val(i)
+			if i > 0 && r.Chance(0.15) {
+				v = val(i - 1) // a value shared by two keys
+			}
+			reg[k] = v
+			f.vfApply(vfOp{k: k, v: v})
+		}
+	}
+	{
+		var ks []string
+		for k, v := range reg {
+			ks = append(ks, k+"="+v)
+		}
+		sort.Strings(ks)
+		steps = append(steps, fmt.Sprintf("(before Build) registered %v", ks))
+	}
+	fresh := n
+	genOps := func(m int) []vfOp {
+		var ops []vfOp
+		for len(ops) < m {
+			var keys []string
+			for k := range reg {
+				keys = append(keys, k)
+			}
+			sort.Strings(keys)
+			switch {
+			case len(keys) > 0 && r.Chance(0.35):
+				k := kit.Choose(r, keys)
+				delete(reg, k)
+				ops = append(ops, vfOp{del: true, k: k})
+			case len(keys) > 0 && r.Chance(0.2): // a further key for a value that is registered already
+				fresh++
+				k := fmt.Sprintf("svc/%d", fresh)
+				reg[k] = reg[kit.Choose(r, keys)]
+				ops = append(ops, vfOp{k: k, v: reg[k]})
+			default:
+				fresh++
+				k := fmt.Sprintf("svc/%d", fresh)
+				reg[k] = val(fresh)
+				ops = append(ops, vfOp{k: k, v: reg[k]})
+			}
+		}
+		return ops
+	}
+	descr := func(ops []vfOp) string {
+		var ds []string
+		for _, o := range ops {
+			if o.del {
+				ds = append(ds, "DEL "+o.k)
+			} else {
+				ds = append(ds, "PUT "+o.k+"="+o.v)
+			}
+		}
+		return fmt.Sprint(ds)
+	}
+	viewOf := func() map[string]bool {
+		m := map[string]bool{}
+		for _, v := range reg {
+			m[v] = true
+		}
+		return m
+	}
+	before := viewOf()
+	pl := r.Pick(5, 3, 2, 3)
+	place := vfPlacements[pl]
+	var first []vfOp // event-during-later-publish: the registration whose publication is used
+	if pl == 3 {
+		fresh++
+		k := fmt.Sprintf("svc/%d", fresh)
+		reg[k] = val(fresh)
+		first = []vfOp{{k: k, v: reg[k]}}
+	}
+	ops := genOps(r.Pick(0, 5, 3, 1))
+	after := viewOf()
+	changed := len(before) != len(after)
+	for v := range after {
+		if !before[v] {
+			changed = true
+		}
+	}
+
+	rec := &vfRec{sig: make(chan struct{}, 1)}
+	var hookMu sync.Mutex
+	barrier := "" // why the barrier could not be established (watchdog), if so
+	hookRan := make(chan struct{})
+	fail := func(why string) {
+		hookMu.Lock()
+		if barrier == "" {
+			barrier = why
+		}
+		hookMu.Unlock()
+	}
+	switch pl {
+	case 0:
+		steps = append(steps, "BUILD; from inside the 1st UpdateState: "+descr(ops)+" delivered on the watch stream, then a progress notification received by go-zero; UpdateState returns")
+		rec.hook = func(call int) {
+			if call != 1 {
+				return
+			}
+			defer close(hookRan)
+			if !f.vfWaitCalls(1, 1) {
+				fail("watchdog: no Watch while Build was inside the 1st UpdateState")
+				return
+			}
+			f.vfApply(ops...)
+			if !vfAwait(f.vfProbe()) {
+				fail("watchdog: go-zero did not receive the progress notification behind the injected events")
+			}
+		}
+	case 1, 2:
+		f.mu.Lock()
+		f.afterSnap = ops
+		f.holdNext = true
+		f.mu.Unlock()
+		if pl == 1 {
+			steps = append(steps, "BUILD; right after the snapshot of its Get: "+descr(ops)+" (replayed by the Watch that follows, stream held); from inside the 1st UpdateState: stream released, then a progress notification received by go-zero; UpdateState returns")
+			rec.hook = func(call int) {
+				if call != 1 {
+					return
+				}
+				defer close(hookRan)
+				if !f.vfWaitCalls(1, 1) {
+					fail("watchdog: no Watch while Build was inside the 1st UpdateState")
+					return
+				}
+				f.vfRelease()
+				if !vfAwait(f.vfProbe()) {
+					fail("watchdog: go-zero did not receive the progress notification behind the replayed events")
+				}
+			}
+		} else {
+			steps = append(steps, "BUILD; right after the snapshot of its Get: "+descr(ops)+" (replayed by the Watch that follows, stream held until Build has returned)")
+		}
+	case 3:
+		steps = append(steps, "BUILD")
+		rec.hook = func(call int) {
+			if call != 2 {
+				return
+			}
+			// on go-zero's watch goroutine: only queue the events, the barrier is awaited outside
+			f.vfApply(ops...)
+			close(hookRan)
+		}
+	}
+	u, _ := url.Parse("discov://" + ep + "/svc")
+	var rs resolver.Resolver
+	var err error
+	if p := vfGuard(func() { rs, err = (&discovBuilder{}).Build(resolver.Target{URL: *u}, rec, resolver.BuildOptions{}) }); p != nil {
+		c.Viol("C13/resolver-wb-panic/build", fmt.Sprintf("discovBuilder.Build panicked: %v", p), map[string]any{"steps": steps})
+		return
+	}
+	if err != nil {
+		panic("c13 whitebox: Build: " + err.Error())
+	}
+	defer rs.Close()
+	switch pl {
+	case 0, 1:
+		select {
+		case <-hookRan:
+		default:
+			// Build returned without having called UpdateState: there was no point to inject at
+			// (an initial publication is demanded by the resolver-wb family, not here)
+			c.Obs("wb_build_without_initial_publication", 1)
+			c.Inconclusive("Build returned without an initial UpdateState: no point to inject at (" + place + ")")
+			return
+		}
+	case 2:
+		if !f.vfWaitCalls(1, 1) {
+			c.Inconclusive("watchdog: no Get+Watch after Build")
+			return
+		}
+		steps = append(steps, "stream released, then a progress notification received by go-zero")
+		f.vfRelease()
+		if !vfAwait(f.vfProbe()) {
+			fail("watchdog: go-zero did not receive the progress notification behind the replayed events")
+		}
+	case 3:
+		if !f.vfWaitCalls(1, 1) {
+			c.Inconclusive("watchdog: no Get+Watch after Build")
+			return
+		}
+		steps = append(steps, descr(first)+"; from inside the UpdateState it causes (2nd): "+descr(ops)+" queued on the watch stream; then a progress notification received by go-zero")
+		f.vfApply(first...)
+		// behind `first`: once received, the publication caused by `first` (and with it the hook) is over
+		if !vfAwait(f.vfProbe()) {
+			fail("watchdog: go-zero did not receive the progress notification behind the first registration")
+			break
+		}
+		select {
+		case <-hookRan:
+			// behind the events queued by the hook
+			if !vfAwait(f.vfProbe()) {
+				fail("watchdog: go-zero did not receive the progress notification behind the injected events")
+			}
+		default:
+			// no 2nd UpdateState although go-zero is past the registration: the ops were never
+			// injected; the comparison below is against the store as it is (with the first
+			// registration only), which the last publication does not match
+			steps = append(steps, "(no 2nd UpdateState happened: nothing was injected)")
+		}
+	}
+	hookMu.Lock()
+	why := barrier
+	hookMu.Unlock()
+	if why != "" {
+		c.Inconclusive(why + " (" + place + ")")
+		return
+	}
+	// go-zero has consumed every event; no registry event follows
+	exp := f.vfView("svc")
+	eval := func() (string, []string) {
+		_, last := rec.vfSnapshot()
+		seen := map[string]bool{}
+		for _, a := range last {
+			if seen[a] {
+				return "duplicate-address", last
+			}
+			seen[a] = true
+			if !exp[a] {
+				return "stale-address", last
+			}
+		}
+		if len(last) != len(exp) {
+			return "missing-address", last
+		}
+		return "", last
+	}
+	c.Obs("wb_build_inject_cases", 1)
+	c.Obs("wb_build_inject_"+place, 1)
+	if changed {
+		c.Obs("wb_build_inject_cases_changing_the_view", 1)
+	}
+	kind, last := eval()
+	if kind != "" {
+		c.Obs("wb_stale_publications", 1)
+		vfStaleReports++
+		if vfStaleReports > 5 {
+			c.Obs("wb_reports_suppressed_stale_publication", 1)
+			return
+		}
+		rec.vfStable()
+		kind, last = eval()
+	}
+	if kind != "" {
+		var es []string
+		for v := range exp {
+			es = append(es, v)
+		}
+		sort.Strings(es)
+		var sv []string
+		if dr, ok := rs.(*discovResolver); ok {
+			vfGuard(func() { sv = append(sv, dr.sub.Values()...) })
+			sort.Strings(sv)
+		}
+		calls, _ := rec.vfSnapshot()
+		c.Viol("C13/resolver-wb-stale-publication/"+place,
+			fmt.Sprintf("the last address list published through UpdateState (%d calls) has a %s: published %v, registered values %v (the resolver's subscriber says %v); go-zero has received every event and none follows",
+				calls, kind, last, es, sv),
+			map[string]any{"placement": place, "steps": steps, "registered_values": es, "published_last": last, "update_state_calls": calls, "resolver_subscriber_values": sv})
+		return
+	}
+	c.Sig(changed, "build-inject", place, steps)
+	if c.Index < 4 {
+		c.Sample("resolver-build-inject", 2, map[string]any{"placement": place, "steps": steps, "published_last": last})
+	}
+}
+
 func vfSubsetCase(c *kit.Case) {
 	r := c.R
 	for rep := 0; rep < 200; rep++ {
@@ -805,6 +1180,7 @@ func TestVerifC13W(t *testing.T) {
 		return f, nil
 	})
 	kit.Run(t, "C13", "resolver-wb", kit.N(1500, 40000), vfResolverHistory)
+	kit.Run(t, "C13", "build-inject-wb", kit.N(1600, 40000), vfBuildInjectCase)
 	kit.Run(t, "C13", "subset-wb", kit.N(20, 400), vfSubsetCase)
 	kit.End()
 }
